@@ -64,7 +64,7 @@ Next == \E seq \in Singles :
 
 Last == cmds'[Len(cmds')]
 IsRunCmd(c) == c.k = "direct" /\ c.stmts[1].k = "run"
-Fresh(mm) == [WithListing(InitM, mm.lst) EXCEPT !.src = mm.src]
+Fresh(mm) == WithListing(InitM, mm.lst, mm.src)
 \* (a RUN n naming a missing line is refused before anything executes: not a run)
 RunIsFresh == [][ (IsRunCmd(Last) /\ m'.mode # "oom" /\ (Last.stmts[1].n < 0 \/ Last.stmts[1].n \in DOMAIN m.lst)) =>
                     LET f == Do(Fresh(m), Last, Fuel) IN
